@@ -241,9 +241,17 @@ pub fn subset() -> &'static Subset {
     })
 }
 
+/// result ids are handed out through an affine bijection k -> 1 + (k*a + c) mod 4093, so that
+/// declaration order and numeric id order differ (identity in a third of the cases)
+const ID_P: u32 = 4093;
+fn perm_id(k: u32, a: u32, c: u32) -> u32 {
+    1 + ((k as u64 * a as u64 + c as u64) % ID_P as u64) as u32
+}
+
 struct Base {
     m: dr::Module,
     next: u32,
+    perm: (u32, u32),
     /// declared type ids
     types: Vec<u32>,
     int_ty: u32,
@@ -255,13 +263,21 @@ struct Base {
     values: Vec<u32>,
 }
 
+impl Base {
+    fn take_id(&mut self) -> u32 {
+        let v = perm_id(self.next, self.perm.0, self.perm.1);
+        self.next += 1;
+        v
+    }
+}
+
 fn inst(op: spirv::Op, rt: Option<u32>, rid: Option<u32>, ops: Vec<Operand>) -> dr::Instruction {
     dr::Instruction::new(op, rt, rid, ops)
 }
 
 fn base_module(cs: &mut Cs, rich: bool) -> Base {
     let mut m = dr::Module::new();
-    let mut h = dr::ModuleHeader::new(1000);
+    let mut h = dr::ModuleHeader::new(ID_P + 2);
     h.set_version(1, cs.below(7) as u8);
     m.header = Some(h);
     let capg = golden().enums.get("Capability").unwrap();
@@ -281,9 +297,10 @@ fn base_module(cs: &mut Cs, rich: bool) -> Base {
             enum_operand(K::MemoryModel, mmg.values[cs.below(mmg.values.len())].value).unwrap(),
         ],
     ));
-    let mut next = 1u32;
+    let mut next = 0u32;
+    let perm: (u32, u32) = if cs.below(3) == 0 { (1, 0) } else { (1 + cs.below((ID_P - 1) as usize) as u32, cs.below(ID_P as usize) as u32) };
     let mut fresh = || {
-        let v = next;
+        let v = perm_id(next, perm.0, perm.1);
         next += 1;
         v
     };
@@ -373,6 +390,7 @@ fn base_module(cs: &mut Cs, rich: bool) -> Base {
     Base {
         m,
         next,
+        perm,
         types,
         int_ty,
         float_ty,
@@ -507,15 +525,13 @@ fn add_function(cs: &mut Cs, b: &mut Base, body: &mut dyn FnMut(&mut Cs, &mut Ba
     let fcg = golden().enums.get("FunctionControl").unwrap();
     let fc = if cs.bool() { 0 } else { fcg.bits[cs.below(fcg.bits.len())].bit };
     let ret = b.types[cs.below(b.types.len())];
-    let fid = b.next;
-    b.next += 1;
+    let fid = b.take_id();
     let mut f = dr::Function::new();
     f.def = Some(inst(spirv::Op::Function, Some(ret), Some(fid), vec![enum_operand(K::FunctionControl, fc).unwrap(), Operand::IdRef(b.fn_ty)]));
     let nb = 1 + cs.below(3);
     let mut labels = vec![];
     for _ in 0..nb {
-        let l = b.next;
-        b.next += 1;
+        let l = b.take_id();
         labels.push(l);
     }
     for bi in 0..nb {
@@ -525,8 +541,7 @@ fn add_function(cs: &mut Cs, b: &mut Base, body: &mut dyn FnMut(&mut Cs, &mut Ba
         let np = cs.below(3);
         for _ in 0..np {
             let ty = b.types[cs.below(b.types.len())];
-            let id = b.next;
-            b.next += 1;
+            let id = b.take_id();
             let n = cs.below(3);
             let mut ops = vec![];
             for _ in 0..n {
@@ -571,8 +586,7 @@ fn add_function(cs: &mut Cs, b: &mut Base, body: &mut dyn FnMut(&mut Cs, &mut Ba
 fn one_op(cs: &mut Cs, b: &mut Base, gi: &'static GInst, assign: &str, fixed: bool) -> Option<dr::Instruction> {
     let ops = make_operands(cs, gi, assign, b, fixed)?;
     let rt = b.types[if fixed { 3.min(b.types.len() - 1) } else { cs.below(b.types.len()) }];
-    let id = b.next;
-    b.next += 1;
+    let id = b.take_id();
     b.values.push(id);
     Some(inst(spirv::Op::from_u32(gi.opcode)?, Some(rt), Some(id), ops))
 }
